@@ -1,8 +1,160 @@
-//! Live part of C14 (page limits through RequestContext::page_limit).
+//! Live part of C14: page limits through RequestContext::page_limit, and token
+//! refusals as seen by a client (4xx, never 5xx).
+
+use crate::live::*;
+use crate::paging;
 use crate::report::*;
 use serde_json::{json, Value};
+use std::time::Duration;
 
-pub fn run(_ctx: &Ctx, _samples: &Samples) -> Value {
-    json!({"requests": 0, "distinct_limits": 0, "note": "live part not built yet"})
+const T: Duration = Duration::from_secs(10);
+const MAX: u64 = 10_000;
+const DEFAULT: u64 = 100;
+
+#[derive(Debug, PartialEq)]
+enum Want {
+    Limit(u64),
+    Refuse,
+    /// the property does not classify this string: only "no 5xx, no hang"
+    Unclassified,
 }
-pub fn replay(_ctx: &Ctx, _case: &Value) {}
+
+fn reference(limit: Option<&str>) -> Want {
+    match limit {
+        None => Want::Limit(DEFAULT),
+        Some(s) => {
+            if !s.is_empty() && s.bytes().all(|b| b.is_ascii_digit()) {
+                // a decimal number
+                let trimmed = s.trim_start_matches('0');
+                if trimmed.is_empty() {
+                    return Want::Refuse; // zero
+                }
+                if trimmed.len() > 10 {
+                    return Want::Unclassified;
+                }
+                let n: u64 = trimmed.parse().unwrap();
+                if n > u32::MAX as u64 {
+                    Want::Unclassified
+                } else {
+                    Want::Limit(n.min(MAX))
+                }
+            } else if s.starts_with('+') && s[1..].bytes().all(|b| b.is_ascii_digit()) && s.len() > 1 {
+                Want::Unclassified
+            } else {
+                Want::Refuse // negative, empty, fractional, hex, text, non-ASCII digits, padded
+            }
+        }
+    }
+}
+
+fn check_limit(ctx: &Ctx, ka: &mut KeepAlive, limit: Option<&str>, token: Option<&str>, samples: &Samples) {
+    let mut q = String::from("/limit?");
+    match token {
+        Some(t) => q.push_str(&format!("page_token={}", pct(t.as_bytes()))),
+        None => q.push_str("size=3"),
+    }
+    if let Some(l) = limit {
+        q.push_str(&format!("&limit={}", pct(l.as_bytes())));
+    }
+    let r = ka.roundtrip(&get(&q, ""), false, T);
+    let want = reference(limit);
+    let case = json!({"kind":"live_request","seam":"page_limit","limit": limit, "with_token": token.is_some()});
+    let ReadOutcome::Resp(resp) = &r else {
+        ctx.report(Violation { sig: json!({"kind":"limit_no_response"}), case, expected: json!(format!("{want:?}")), observed: json!(format!("{r:?}")) });
+        return;
+    };
+    let ok = match &want {
+        Want::Limit(n) => resp.status == 200 && resp.json().map(|j| j["limit"] == json!(n)).unwrap_or(false),
+        Want::Refuse => (400..500).contains(&resp.status),
+        Want::Unclassified => resp.status < 500,
+    };
+    if !ok {
+        let class = match limit {
+            None => "absent",
+            Some(l) if l.bytes().all(|b| b.is_ascii_digit()) && !l.is_empty() => "decimal",
+            _ => "other",
+        };
+        ctx.report(Violation {
+            sig: json!({"kind":"page_limit","class": class, "want": match want { Want::Limit(_) => "limit", Want::Refuse => "refuse", Want::Unclassified => "no_5xx" }, "status": resp.status}),
+            case,
+            expected: json!(format!("{want:?}")),
+            observed: resp.to_json(),
+        });
+    }
+    samples.offer(|| json!({"limit": limit, "response": resp.to_json()}));
+}
+
+pub fn run(ctx: &Ctx, samples: &Samples) -> Value {
+    let srv = LiveServer::start(paging::api(), (), ServerOpts::default()).unwrap_or_else(|e| machinery_failure(&e));
+    let mut ka = KeepAlive::new(srv.addr);
+    let mut requests = 0u64;
+    let mut distinct = 0u64;
+    // a valid token for the "with token" variant
+    let first = ka.roundtrip(&get("/items?size=3&limit=1", ""), false, T);
+    let token = match &first {
+        ReadOutcome::Resp(r) => r.json().and_then(|j| j["next_page"].as_str().map(|s| s.to_string())),
+        _ => None,
+    };
+    let Some(token) = token else { machinery_failure("c14 live: could not obtain a token") };
+
+    let mut limits: Vec<String> = vec![];
+    let upto: u64 = ctx.tier.pick(130, 10_002);
+    for n in 0..=upto {
+        limits.push(n.to_string());
+    }
+    for n in [999u64, 1000, 1001, 9_998, 9_999, 10_000, 10_001, 10_002, 65_535, 65_536, 100_000, 1 << 31, (1 << 32) - 1, 1 << 32, (1 << 32) + 1, u64::MAX] {
+        limits.push(n.to_string());
+    }
+    for s in ["00", "007", "0010000", "-1", "-0", "1.0", "1e3", "0x10", "", " 5", "5 ", "abc", "٣", "+5", "5,000", "١٠", "NaN", "18446744073709551616", "1_000"] {
+        limits.push(s.to_string());
+    }
+    check_limit(ctx, &mut ka, None, None, samples);
+    check_limit(ctx, &mut ka, None, Some(&token), samples);
+    requests += 2;
+    for l in &limits {
+        check_limit(ctx, &mut ka, Some(l), None, samples);
+        requests += 1;
+        distinct += 1;
+        // the limit applies the same way when a token is present
+        if l.len() < 6 || !l.bytes().all(|b| b.is_ascii_digit()) {
+            check_limit(ctx, &mut ka, Some(l), Some(&token), samples);
+            requests += 1;
+        }
+    }
+    // token refusals as the client sees them: 4xx, never 5xx
+    let b64 = |s: &str| {
+        use base64::Engine;
+        base64::engine::general_purpose::URL_SAFE.encode(s)
+    };
+    let bad_tokens: Vec<(String, String)> = vec![
+        ("garbage".into(), "!!!not-base64!!!".into()),
+        ("not_json".into(), b64("hello")),
+        ("wrong_version".into(), b64("{\"v\":\"v2\",\"page_start\":{}}")),
+        ("wrong_shape".into(), b64("{\"v\":\"v1\",\"page_start\":[1,2]}")),
+        ("empty".into(), "".into()),
+        ("over_long".into(), b64(&format!("{{\"v\":\"v1\",\"page_start\":{{\"size\":1,\"sort\":\"name_asc\",\"long\":false,\"last_kind\":0,\"last_name\":\"{}\"}}}}", "e".repeat(400)))),
+        ("truncated".into(), token[..token.len() / 2].to_string()),
+        ("doubled".into(), format!("{token}{token}")),
+    ];
+    for (name, t) in &bad_tokens {
+        requests += 1;
+        let r = ka.roundtrip(&get(&format!("/items?page_token={}", pct(t.as_bytes())), ""), false, T);
+        let ok = matches!(&r, ReadOutcome::Resp(resp) if (400..500).contains(&resp.status));
+        if !ok {
+            ctx.report(Violation {
+                sig: json!({"kind":"bad_token_not_4xx","token": name}),
+                case: json!({"kind":"live_request","seam":"page_token","token": t}),
+                expected: json!("4xx"),
+                observed: match &r { ReadOutcome::Resp(resp) => resp.to_json(), o => json!(format!("{o:?}")) },
+            });
+        }
+    }
+    json!({"requests": requests, "distinct_limits": distinct, "server_max": MAX, "server_default": DEFAULT,
+           "limit_strings": "absent, every n in 0..=upto, boundary values up to 2^64-1, malformed spellings; each also with a page token present",
+           "upto": upto, "bad_tokens": bad_tokens.len()})
+}
+
+pub fn replay(ctx: &Ctx, _case: &Value) {
+    let s = Samples::new(0);
+    let _ = run(ctx, &s);
+}
